@@ -401,6 +401,52 @@ def cases_for(tier, r):
   return cs
 
 
+def multi_component_stream(rep, tier, r):
+  """Several INDEPENDENT recursive components in one program, some with @Recursive(P, N), some without: every
+  one must be unfolded with its own depth (N or the default 8), whatever the others say."""
+  names_pool = ['Alpha', 'Beta', 'Gamma', 'Delta', 'Rho', 'Zed', 'Kappa', 'Omega']
+  n_prog = 6 if tier == 'quick' else 60
+  jobs, metas = [], []
+  for _ in range(n_prog):
+    names = r.sample(names_pool, r.choice([2, 3]))
+    depths = {}
+    for nm in names:
+      depths[nm] = r.choice([None, None, 3, 5, 12])
+    if all(v is None for v in depths.values()):
+      depths[names[0]] = r.choice([3, 5, 12])
+    if all(v is not None for v in depths.values()):
+      depths[names[-1]] = None
+    lines = ['@Engine("sqlite");'] + ['E(%d, %d);' % (i, i + 1) for i in range(30)] + ['S(0);']
+    for nm in names:
+      if depths[nm] is not None:
+        lines.append('@Recursive(%s, %d);' % (nm, depths[nm]))
+      lines.append('%s(x) distinct :- S(x);' % nm)
+      lines.append('%s(y) distinct :- %s(x), E(x, y);' % (nm, nm))
+    r.shuffle(lines)
+    lines.remove('@Engine("sqlite");')
+    text = '@Engine("sqlite");\n' + '\n'.join(lines) + '\n'
+    jobs.append((text, names))
+    metas.append(depths)
+  with ProcessPoolExecutor(max_workers=4) as ex:
+    results = list(ex.map(run_real, jobs, chunksize=1))
+  checked = bad = 0
+  for (text, names), depths, got in zip(jobs, metas, results):
+    for nm in names:
+      d = 8 if depths[nm] is None else depths[nm]
+      want = logica_run.bag([(i,) for i in range(d + 1)])      # T^(d+1)(empty) on the chain 0 -> 1 -> ...
+      res = got.get(nm)
+      checked += 1
+      if res is None or res[0] != 'ok' or res[1] != want:
+        bad += 1
+        if bad <= 3:
+          rep.violation('multi-component:%s' % ('default' if depths[nm] is None else 'explicit'), {
+              'program_text': text, 'predicate': nm, 'depths': depths,
+              'law': 'each recursive component is applied exactly depth+1 times, depth = its own @Recursive value or 8',
+              'expected_rows': d + 1, 'observed': [res[0], (len(res[1]) if res and res[0] == 'ok' else res[1])] if res else None,
+              'how': 'props/c03.py run_real(program_text, [predicate]) (SQLite)'})
+  return {'programs': n_prog, 'predicates_checked': checked, 'bad': bad}
+
+
 def preds_of(case):
   return list(SHAPES[case['shape']].members)
 
@@ -431,7 +477,9 @@ def run(tier, replay=None):
   with ProcessPoolExecutor(max_workers=4) as ex:
     results = list(ex.map(run_real, jobs, chunksize=2))
   found = 0
+  multi = multi_component_stream(rep, tier, r) if not replay else {}
   stats = {'ok': 0, 'known': 0, 'bad': 0, 'by_shape': {}, 'by_depth': {}, 'iterative_plans': 0,
+           'multi_component': multi,
            'matched': {}, 'run_s': round(time.time() - t0, 1)}
   for c, got in zip(cases, results):
     verdict, detail = judge(c, got)
